@@ -198,6 +198,8 @@ func ObjectToBag(s *slip.Scope, obj slip.Object, depth int) (v any) {
 			}
 		}
 		v = list
+	case *slip.Bignum, *slip.LongFloat:
+		v = bigNumberToBag(val)
 	case *flavors.Instance:
 		if val.Type != flavor {
 			slip.TypePanic(s, depth, "value", val, "nil", "t", ":false", "integer", "float", "string", "symbol", "gi::time",
